@@ -5,7 +5,6 @@ Property theorems only.  (The Session-level part — the matcher thread's two-st
 `session_item_index`.)
 -/
 import SkimModel.Lemmas.Pool
-import SkimModel.Generated.SpinLock
 namespace SkimModel.Pool
 variable {α : Type}
 
@@ -126,15 +125,6 @@ theorem c15_lock_no_lost_update (n : Nat) (sched : List Nat) :
     ((run (init n) sched).locked = false → (run (init n) sched).data = (run (init n) sched).done) ∧
     (∀ (i t : Nat), (run (init n) sched).pcs[i]? = some (PC.csWrite t) → t = (run (init n) sched).done) :=
   ⟨(run_linv n sched).free, fun i t h => ((run_linv n sched).wr i t h).1⟩
-
-/-- The memory orderings WRITTEN IN THE SOURCE (regenerated from src/spinlock.rs and src/item.rs on every
-    run) are strong enough for the sequentially consistent model above to apply: acquiring the lock is at
-    least an acquire, releasing it at least a release (so a holder's writes are visible to the next
-    holder), and every pool counter access is SeqCst. -/
-theorem c15_lock_orderings_ok :
-    (Generated.SpinLock.lockSuccess ∈ [.acquire, .acqRel, .seqCst]) ∧
-    (Generated.SpinLock.unlockSuccess ∈ [.release, .acqRel, .seqCst]) ∧
-    (∀ a ∈ Generated.SpinLock.poolAtomics, a.2.2 = .seqCst) := by decide
 
 /-! non-vacuity -/
 example : (run (init 3) [0, 1, 0, 2, 0, 0, 1, 1, 1, 1]).data = 2 := by decide
